@@ -4,7 +4,10 @@
 //! A case is `p <ints>`: a program as a list of ops in the encoding of `lean/Driver/C01.lean`
 //! (`0` `{`, `1` `}`, `2 pre kind idx val` assignment, `3 pre tk tn dk a b` definition,
 //! `4 pre f` font selector, `5 c x y` read; `pre % 10` = number of `\global`s (0..3); on a `\def`/`\gdef` `pre / 10` is the
-//! whole prefix run in base 4 (1 `\global`, 2 `\long`, 3 `\outer`: any order, any repetition, at most 5); + 10 on a \count/\dimen/\skip
+//! whole prefix run in base 4 (1 `\global`, 2 `\long`, 3 `\outer`: any order, any repetition, at most 5); on an
+//! assignment to a \count/\toks register the tens digit 2/3 (and on a read `kind + 10 * (1 + n)`) = address the
+//! register through the n-th name that is currently a `\countdef`/`\toksdef` alias of it (the driver lists them per
+//! op from the specification's state; the direct name is used when there is none), hundreds digit = n; + 10 on a \count/\dimen/\skip
 //! assignment = write it as `\multiply v by 0 \advance v by val`, + 10 on a font selector = select through a fresh
 //! `\let`-alias). The program is rendered to TeX source (one line) and
 //! run by the real VM: `VM::<StdLibState>` with `StdLibState`'s own built-ins plus
@@ -161,7 +164,20 @@ fn op_ok(op: &Op) -> bool {
     match *op {
         Op::Begin | Op::End | Op::ReadFont => true,
         Op::Assign { pre, kind, idx, val } => {
-            (0..=3).contains(&(pre % 10)) && (pre / 10 == 0 || (pre / 10 == 1 && (0..=2).contains(&kind))) && var_ok(kind, idx) && val_ok(kind, idx, val)
+            // pre = 100 * alias selector + 10 * style + number of \global; style 0 direct, 1 direct through
+            // \multiply/\advance, 2 through a register alias, 3 through an alias with \multiply/\advance
+            let (g, style, sel) = (pre % 10, pre / 10 % 10, pre / 100);
+            (0..=3).contains(&g)
+                && (0..=9).contains(&sel)
+                && match style {
+                    0 => sel == 0,
+                    1 => sel == 0 && (0..=2).contains(&kind),
+                    2 => kind == 0 || kind == 3,
+                    3 => kind == 0,
+                    _ => false,
+                }
+                && var_ok(kind, idx)
+                && val_ok(kind, idx, val)
         }
         Op::Define { pre, tk, tn, dk, a, b } => {
             // `\long` / `\outer` are legal in front of macro definitions only
@@ -182,7 +198,8 @@ fn op_ok(op: &Op) -> bool {
                 }
         }
         Op::Font { pre, f } => (0..=3).contains(&(pre % 10)) && pre / 10 <= 1 && (0..4).contains(&f),
-        Op::ReadVar { kind, idx } => var_ok(kind, idx),
+        // kind + 10 * (1 + alias selector): read through a register alias (\count, \toks only)
+        Op::ReadVar { kind, idx } => (0..=109).contains(&kind) && (kind < 10 || kind % 10 == 0 || kind % 10 == 3) && var_ok(kind % 10, idx),
         Op::ReadCmd { tk, tn } => target_ok(tk, tn),
     }
 }
@@ -262,13 +279,53 @@ fn run_tex(run: &[u8]) -> String {
 
 const PRELUDE: &str = "\\catcode`\\~=13 \\catcode`\\+=13 ";
 
-fn render(ops: &[Op]) -> String {
+/// The `sel`-th name that the specification says is currently a register alias of the variable of
+/// op number `i` (annotation `<tag>:c0,x1,…` of the driver), if there is one.
+fn alias_tex(annots: &[&str], i: usize, sel: i64) -> Option<String> {
+    let list = annots.get(i)?.split_once(':')?.1;
+    let names: Vec<&str> = list.split(',').filter(|n| !n.is_empty()).collect();
+    // only names of the harness's vocabulary
+    let names: Vec<String> = names
+        .iter()
+        .filter_map(|n| {
+            let (k, num) = n.split_at(1);
+            let num: i64 = num.parse().ok()?;
+            let tk = if k == "c" { 0 } else { 1 };
+            if target_ok(tk, num) {
+                Some(target_tex(tk, num))
+            } else {
+                None
+            }
+        })
+        .collect();
+    if names.is_empty() {
+        None
+    } else {
+        Some(names[sel as usize % names.len()].clone())
+    }
+}
+
+/// `annots`: the driver's per-op annotations (needed only to write an op through a register alias;
+/// without them such ops are written with the register's direct name).
+fn render(ops: &[Op], annots: &[&str]) -> String {
     let mut s = String::from(PRELUDE);
-    for op in ops {
+    for (opi, op) in ops.iter().enumerate() {
         match *op {
             Op::Begin => s.push('{'),
             Op::End => s.push('}'),
-            Op::Assign { pre, kind, idx, val } if pre >= 10 => {
+            Op::Assign { pre, kind, idx: _, val } if pre / 10 % 10 >= 2 && alias_tex(annots, opi, pre / 100).is_some() => {
+                // through a name that `\countdef` / `\toksdef` (or a `\let` copy of one) made an alias of the register
+                let p = pre_tex(pre % 10);
+                let v = alias_tex(annots, opi, pre / 100).unwrap();
+                if pre / 10 % 10 == 3 {
+                    s.push_str(&format!("{p}\\multiply {v}by 0 {p}\\advance {v}by {val} "));
+                } else if kind == 3 {
+                    s.push_str(&format!("{p}{v}={{{val}}}"));
+                } else {
+                    s.push_str(&format!("{p}{v}={val} "));
+                }
+            }
+            Op::Assign { pre, kind, idx, val } if pre / 10 % 10 == 1 || pre / 10 % 10 == 3 => {
                 // the same assignment through math.rs: `\multiply v by 0` then `\advance v by val`, both
                 // with the same prefix (two assignments of one scope to one variable = one assignment)
                 let p = pre_tex(pre % 10);
@@ -281,7 +338,7 @@ fn render(ops: &[Op]) -> String {
                 s.push_str(&format!("{p}\\multiply {v}by 0 {p}\\advance {v}by {val}{unit}"));
             }
             Op::Assign { pre, kind, idx, val } => {
-                s.push_str(&pre_tex(pre));
+                s.push_str(&pre_tex(pre % 10));
                 s.push_str(&var_tex(kind, idx));
                 match kind {
                     1 => s.push_str(&format!("={val}pt ")),
@@ -314,7 +371,10 @@ fn render(ops: &[Op]) -> String {
                 s.push_str(&pre_tex(pre));
                 s.push_str(&format!("\\{} ", FONT_NAMES[f as usize]));
             }
-            Op::ReadVar { kind, idx } => s.push_str(&format!("\\the {};", var_tex(kind, idx))),
+            Op::ReadVar { kind, idx } => match (kind >= 10).then(|| alias_tex(annots, opi, kind / 10 - 1)).flatten() {
+                Some(v) => s.push_str(&format!("\\the {v};")),
+                None => s.push_str(&format!("\\the {};", var_tex(kind % 10, idx))),
+            },
             Op::ReadCmd { tk, tn } => s.push_str(&format!("\\rd {};", target_tex(tk, tn))),
             Op::ReadFont => s.push_str("\\curfont ;"),
         }
@@ -486,6 +546,7 @@ impl C01 {
             }
             let s = match *op {
                 Op::ReadVar { kind, idx } => {
+                    let kind = kind % 10;
                     if w == "d" {
                         self.default_of(kind, idx)
                     } else {
@@ -525,7 +586,7 @@ impl C01 {
 
 fn target_class(op: &Op) -> String {
     match *op {
-        Op::ReadVar { kind, .. } => KIND_NAMES[kind as usize].to_string(),
+        Op::ReadVar { kind, .. } => KIND_NAMES[(kind % 10) as usize].to_string(),
         Op::ReadCmd { tk, .. } => if tk == 0 { "control sequence" } else { "active character" }.to_string(),
         Op::ReadFont => "current font".to_string(),
         _ => "?".into(),
@@ -600,9 +661,35 @@ fn tags(ops: &[Op], annots: &str, spec_words: &str, out: &mut CaseOutcome) -> bo
     let mut assigned_in_group = false;
     let mut nontrivial = false;
     for (i, op) in ops.iter().enumerate() {
-        let a = ann.get(i).copied().unwrap_or("-");
-        if a.starts_with('D') {
+        let a_full = ann.get(i).copied().unwrap_or("-");
+        if a_full.starts_with('D') {
             break;
+        }
+        let (a, aliases) = a_full.split_once(':').unwrap_or((a_full, ""));
+        let n_aliases = aliases.split(',').filter(|x| !x.is_empty()).count();
+        match *op {
+            Op::Assign { pre, kind, .. } if pre / 10 % 10 >= 2 => {
+                t.insert(if n_aliases == 0 {
+                    "alias:requested-but-none-defined(direct name used)".to_string()
+                } else {
+                    format!(
+                        "assign-via-alias:{}:{}{}",
+                        KIND_NAMES[kind as usize],
+                        a,
+                        if pre / 10 % 10 == 3 { ":\\multiply+\\advance" } else { "" }
+                    )
+                });
+                if n_aliases >= 2 {
+                    t.insert("alias:several-aliases-of-one-register".into());
+                }
+            }
+            Op::Assign { kind, .. } if n_aliases > 0 => {
+                t.insert(format!("assign-direct-while-aliased:{}:{}", KIND_NAMES[kind as usize], a));
+            }
+            Op::ReadVar { kind, .. } if kind >= 10 && n_aliases > 0 => {
+                t.insert("read:variable-via-alias".into());
+            }
+            _ => {}
         }
         let depth = stack.len();
         match *op {
@@ -632,7 +719,7 @@ fn tags(ops: &[Op], annots: &str, spec_words: &str, out: &mut CaseOutcome) -> bo
             Op::Assign { .. } | Op::Define { .. } | Op::Font { .. } => {
                 let tgt = op_target(op).unwrap();
                 if let Op::Assign { pre, kind, .. } = *op {
-                    if pre >= 10 {
+                    if pre / 10 % 10 == 1 {
                         t.insert(format!("assign-via-\\multiply+\\advance:{}", KIND_NAMES[kind as usize]));
                     }
                 }
@@ -888,12 +975,31 @@ fn random_program(r: &mut Rng) -> Vec<Op> {
     for _ in 0..r.range(1, 3) {
         pool.cmds.push(*r.pick(&all_cmds));
     }
+    // alias mode: registers are addressed through `\countdef` / `\toksdef` names as often as directly
+    let alias_mode = r.chance(1, 2);
+    if alias_mode && !pool.vars.iter().any(|v| v.0 == 0 || v.0 == 3) {
+        pool.vars.push(*r.pick(&[(0, 1), (0, 2), (3, 1), (0, 300), (3, 255)]));
+    }
+    let alias_num: u64 = if alias_mode { 4 } else { 1 }; // of 6
     let use_globaldefs = r.chance(1, 4);
     let use_font = r.chance(1, 2);
     let len = r.range(8, 60) as usize;
     let maxdepth = r.range(1, 8) as usize;
     let global_bias = r.range(2, 6) as u64; // of 10
     let mut ops = if r.chance(1, 2) { setup_ops() } else { vec![] };
+    if alias_mode {
+        // one or two aliases per count / toks register of the pool, defined at the outer level
+        let regs: Vec<(i64, i64)> = pool.vars.iter().copied().filter(|v| v.0 == 0 || v.0 == 3).collect();
+        for (k, i) in regs {
+            for _ in 0..r.range(1, 2) {
+                let (tk, tn) = if r.chance(2, 3) { *r.pick(&pool.cmds) } else { *r.pick(&all_cmds) };
+                if !pool.cmds.contains(&(tk, tn)) {
+                    pool.cmds.push((tk, tn));
+                }
+                ops.push(Op::Define { pre: 0, tk, tn, dk: if k == 0 { 4 } else { 5 }, a: i, b: 0 });
+            }
+        }
+    }
     let mut depth = 0usize;
     let mut last: Option<Op> = None; // the last assignment, to repeat its target
     let pick_pre = |r: &mut Rng| -> i64 {
@@ -911,6 +1017,9 @@ fn random_program(r: &mut Rng) -> Vec<Op> {
         for &(k, i) in &pool.vars {
             if all || r.chance(1, 3) {
                 ops.push(Op::ReadVar { kind: k, idx: i });
+            }
+            if (k == 0 || k == 3) && r.chance(alias_num, 12) {
+                ops.push(Op::ReadVar { kind: k + 10 * r.range(1, 4), idx: i });
             }
         }
         for &(tk, tn) in &pool.cmds {
@@ -949,14 +1058,21 @@ fn random_program(r: &mut Rng) -> Vec<Op> {
                 _ => r.range(-99, 99),
             };
             let mut pre = pick_pre(r);
-            if kind <= 2 && r.chance(1, 5) {
+            if (kind == 0 || kind == 3) && r.chance(alias_num, 6) {
+                // through one of the names that currently alias the register
+                pre += 20 + 100 * r.range(0, 3);
+                if kind == 0 && r.chance(1, 4) {
+                    pre += 10;
+                }
+            } else if kind <= 2 && r.chance(1, 5) {
                 pre += 10;
             }
             let op = Op::Assign { pre, kind, idx, val };
             ops.push(op);
             last = Some(op);
             if r.chance(1, 2) {
-                ops.push(Op::ReadVar { kind, idx });
+                let via = if (kind == 0 || kind == 3) && r.chance(alias_num, 8) { 10 * r.range(1, 4) } else { 0 };
+                ops.push(Op::ReadVar { kind: kind + via, idx });
             }
         } else if c < 88 {
             // definition
@@ -964,7 +1080,11 @@ fn random_program(r: &mut Rng) -> Vec<Op> {
                 Some(Op::Define { tk, tn, .. }) if r.chance(1, 2) => (tk, tn),
                 _ => *r.pick(&pool.cmds),
             };
-            let dk = *r.pick(&[0, 0, 0, 1, 1, 2, 2, 3, 4, 4, 5, 6, 7, 8, 9, 9]);
+            let dk = if alias_mode && r.chance(1, 3) {
+                *r.pick(&[4, 4, 5, 9])
+            } else {
+                *r.pick(&[0, 0, 0, 1, 1, 2, 2, 3, 4, 4, 5, 6, 7, 8, 9, 9])
+            };
             let (a, b) = match dk {
                 0 | 1 => (r.range(0, 99), 0),
                 2 | 6 => (r.range(65, 90), 0),
@@ -976,7 +1096,13 @@ fn random_program(r: &mut Rng) -> Vec<Op> {
                         (r.range(1, 2), 0)
                     }
                 }
-                5 => (r.range(1, 2), 0),
+                5 => {
+                    if r.chance(2, 3) {
+                        (pool.vars.iter().find(|v| v.0 == 3).map(|v| v.1).unwrap_or(1), 0)
+                    } else {
+                        (r.range(1, 2), 0)
+                    }
+                }
                 7 => (0, 0),
                 8 => (r.range(0, 3), 0),
                 _ => {
@@ -1053,8 +1179,8 @@ impl Property for C01 {
          and active characters, font selectors, reads). Order: corpus files, built-in witnesses, exhaustive (every sequence up to length \
          4 (quick; 3 for the last 7 pairs) / 5 (thorough; 4 for the last 7 pairs) over 2 targets x 2 values x {local, global} + `{` + `}` \
          with both targets read after every op, for 13 pairs of target kinds; and every sequence up to length 5 (quick) / 6 (thorough; 7 for \
-         \\count) over 1 target x 2 values x {local, global} + `{` + `}` for 6 target kinds; a `}` with no group open only as the last op), random programs (8..60 ops + reads, depth <= 8, a pool of 2-6 hot targets, \
-         20-60% of assignments \\global (1-3 times), half of the \\def/\\gdef with a random run of \\global \\long \\outer in any order, \\globaldefs assigned in a quarter of them). Non-trivial: an assignment inside a group is \
+         \\count) over 1 target x 2 values x {local, global} + `{` + `}` for 8 target kinds; every sequence up to length 5 (4) / 6 over 1 register x {direct name, alias} x {local, global} + `{` + `}` for \\count via \\countdef, \\toks via \\toksdef on an active character, \\count via \\multiply/\\advance; a `}` with no group open only as the last op), random programs (8..60 ops + reads, depth <= 8, a pool of 2-6 hot targets, \
+         20-60% of assignments \\global (1-3 times), half of the \\def/\\gdef with a random run of \\global \\long \\outer in any order, \\globaldefs assigned in a quarter of them; in half of them (alias mode) the \\count/\\toks registers of the pool get 1-2 aliases up front, more \\countdef/\\toksdef/\\let-copies during the run (local and global, redefined to other registers), and 2/3 of the assignments and many reads go through a current alias). Non-trivial: an assignment inside a group is \
          followed by a read."
             .into()
     }
@@ -1086,6 +1212,13 @@ impl Property for C01 {
                 Op::ReadVar { kind: 6, idx: 0 },
             ],
         ];
+        // one register under two names (seeded/C01-r3-1): \countdef\ta=5 {\ta=1 \global\count5=2}\the\count5, mirrored, \toksdef
+        let cd = |dk, i| Op::Define { pre: 0, tk: 0, tn: 0, dk, a: i, b: 0 };
+        let asg = |pre, kind, val| Op::Assign { pre, kind, idx: 5, val };
+        v.push(vec![cd(4, 5), Op::Begin, asg(20, 0, 1), asg(1, 0, 2), Op::End, Op::ReadVar { kind: 0, idx: 5 }, Op::ReadVar { kind: 10, idx: 5 }]);
+        v.push(vec![cd(4, 5), Op::Begin, asg(0, 0, 1), asg(21, 0, 2), Op::End, Op::ReadVar { kind: 0, idx: 5 }, Op::ReadVar { kind: 10, idx: 5 }]);
+        v.push(vec![cd(5, 5), Op::Begin, Op::Begin, asg(20, 3, 1), asg(1, 3, 2), Op::End, Op::ReadVar { kind: 3, idx: 5 }, Op::End, Op::ReadVar { kind: 13, idx: 5 }]);
+        v.push(vec![cd(4, 5), Op::Begin, asg(30, 0, 1), asg(11, 0, 2), Op::End, Op::ReadVar { kind: 0, idx: 5 }]);
         // every kind of target once: local in a group at depth 2, global at depth 2, read at every level
         let mut kinds: Vec<GT> = vec![GT::Font];
         for (k, i) in [(0, 1), (1, 1), (2, 1), (3, 1), (4, 124), (5, 124), (6, 1), (6, 2), (6, 3), (6, 0)] {
@@ -1156,6 +1289,31 @@ impl Property for C01 {
             };
             push_all(&alpha, &[gt_read(t)], false, maxlen, &mut cases, &mut self.exhaustive);
         }
+        // one register addressed directly and through an alias: {direct, alias} x {local, global} + `{` `}`,
+        // each of the four assignments with its own value, register read both ways after every op
+        for (si, (kind, idx, tk, tn, arith)) in [(0i64, 1i64, 0i64, 0i64, false), (3, 1, 1, 0, false), (0, 2, 1, 1, true)].into_iter().enumerate() {
+            let (sd, sa) = if arith { (10, 30) } else { (0, 20) };
+            let alpha = vec![
+                Op::Begin,
+                Op::End,
+                Op::Assign { pre: sd, kind, idx, val: 5 },
+                Op::Assign { pre: sd + 1, kind, idx, val: 6 },
+                Op::Assign { pre: sa, kind, idx, val: 7 },
+                Op::Assign { pre: sa + 1, kind, idx, val: 8 },
+            ];
+            let maxlen = match (ctx.thorough, si) {
+                (true, _) => 6,
+                (false, 0) => 5,
+                (false, _) => 4,
+            };
+            let before = cases.len();
+            push_all(&alpha, &[Op::ReadVar { kind, idx }, Op::ReadVar { kind: kind + 10, idx }], false, maxlen, &mut cases, &mut self.exhaustive);
+            // the alias is defined first, at the outer level
+            let def = enc(&[Op::Define { pre: 0, tk, tn, dk: if kind == 0 { 4 } else { 5 }, a: idx, b: 0 }]);
+            for c in cases[before..].iter_mut() {
+                *c = format!("{} {}", def, c.strip_prefix("p ").unwrap_or(""));
+            }
+        }
         // random
         let n = if ctx.thorough { 150_000 } else { 6_000 };
         let mut r = rng.fork();
@@ -1182,7 +1340,8 @@ impl Property for C01 {
             out.fail(Kind::ImplVsModel, "driver", "driver rejected the case", format!("reply `{reply}`"));
             return out;
         }
-        let src = render(&ops);
+        let annots: Vec<&str> = parts[1].split_ascii_whitespace().collect();
+        let src = render(&ops, &annots);
         let real = run_real(&src);
         let spec = self.expected(&ops, parts[0]);
         let model = self.expected(&ops, parts[9]);
@@ -1288,6 +1447,10 @@ impl Property for C01 {
                     *pre %= 10;
                     c.push(enc(&o));
                 }
+                Op::ReadVar { kind, .. } if *kind >= 10 => {
+                    *kind %= 10;
+                    c.push(enc(&o));
+                }
                 _ => {}
             }
         }
@@ -1312,7 +1475,7 @@ fn main() {
     }
     if let Some(i) = std::env::args().position(|a| a == "--render") {
         let case = std::env::args().nth(i + 1).unwrap();
-        println!("{}", render(&dec(&case).unwrap()));
+        println!("{}", render(&dec(&case).unwrap(), &[]));
         return;
     }
     run(C01 { defaults: HashMap::new(), programs: 0, exhaustive: 0, reads_compared: 0 });
